@@ -5,6 +5,8 @@ pub mod c04;
 pub mod c05;
 pub mod c06;
 pub mod c07;
+pub mod c08;
+pub mod c10;
 pub mod c12;
 pub mod c13;
 pub mod replay;
@@ -20,6 +22,8 @@ pub fn dispatch(prop: &str, tier: Tier) -> i32 {
         "C05" => c05::run(tier),
         "C06" => c06::run(tier),
         "C07" => c07::run(tier),
+        "C08" => c08::run(tier),
+        "C10" => c10::run(tier),
         "C12" => c12::run(tier),
         "C13" => c13::run(tier),
         _ => {
